@@ -391,6 +391,14 @@ class Harness:
                 f"mkfail={'-' if mk is None else mk}")
 
 
+def get_harness(ctx):
+    h = getattr(ctx, '_c14_harness', None)
+    if h is None:
+        h = Harness(ctx)
+        ctx._c14_harness = h
+    return h
+
+
 # ---------------------------------------------------------------- command shapes and fault points
 
 def stem(name):
@@ -835,7 +843,7 @@ def model_interleavings(ctx, corr, H):
             return
 
 def correspond(ctx, corr):
-    H = Harness(ctx)
+    H = get_harness(ctx)
     corr.rule = ('cases = command shapes {-E,-S,-c,link} x {-o, none} x 1..3 inputs (.c/.s/.o, plus -l, unknown extension, sub/dir '
                  'names) x {no fault, every single fault point of the subprocess pipeline: k-th cc1 / k-th as / ld by exit status or '
                  'by signal (shims), real front-end failures (syntax, preprocessor, tokenizer, code-generation error, missing input), '
@@ -859,7 +867,7 @@ def correspond(ctx, corr):
 
 def search(ctx, broken, corr):
     """a proof or the tie broke without a violation in the standard run: full enumeration with the postconditions as oracle"""
-    H = Harness(ctx)
+    H = get_harness(ctx)
     for mode, with_o, kinds in shapes(3, ['c', 's', 'o']):
         b = with_sentinels(base_case(mode, with_o, kinds))
         for c in [b] + fault_variants(b, True):
@@ -876,7 +884,7 @@ def replay(ctx, corr, path):
     if not c:
         corr.extra['replay'] = 'replay file carries no case'
         return
-    H = Harness(ctx)
+    H = get_harness(ctx)
     o = H.run_real(c)
     corr.evaluations = 1
     v = oracle(c, o)
